@@ -187,7 +187,11 @@ func (c *Container) readFrom(r io.Reader) error {
 	crc := crc32.NewIEEE()
 	er := errorReader{r: io.TeeReader(r, crc)}
 	var buf [4]byte
-	io.ReadFull(&er, buf[:])
+	// Only the absence of any further byte is a clean end of the
+	// stream; from here on running out of data is a truncation.
+	if _, err := io.ReadFull(&er, buf[:]); err != nil {
+		return err
+	}
 	c.blockLen = int32(binary.LittleEndian.Uint32(buf[:]))
 	c.refID = er.itf8()
 	c.start = er.itf8()
@@ -197,23 +201,32 @@ func (c *Container) readFrom(r io.Reader) error {
 	c.bases = er.ltf8()
 	c.blocks = er.itf8()
 	c.landmarks = er.itf8slice()
+	if er.err != nil {
+		return unexpectedEOF(er.err)
+	}
 	sum := crc.Sum32()
 	_, err := io.ReadFull(&er, buf[:])
 	if err != nil {
-		return err
+		return unexpectedEOF(err)
 	}
 	c.crc32 = binary.LittleEndian.Uint32(buf[:])
 	if c.crc32 != sum {
 		return fmt.Errorf("cram: container crc32 mismatch got:0x%08x want:0x%08x", sum, c.crc32)
-	}
-	if er.err != nil {
-		return er.err
 	}
 	// The spec says T[] is {itf8, element...}.
 	// This is not true for byte[] according to
 	// the EOF block.
 	c.blockData = &io.LimitedReader{R: r, N: int64(c.blockLen)}
 	return nil
+}
+
+// unexpectedEOF returns io.ErrUnexpectedEOF for io.EOF: inside a
+// structure the end of the data is a truncation, not a clean end.
+func unexpectedEOF(err error) error {
+	if err == io.EOF {
+		return io.ErrUnexpectedEOF
+	}
+	return err
 }
 
 // Next advances the Container to the next CRAM block. It returns false
@@ -228,6 +241,10 @@ func (c *Container) Next() bool {
 	if c.err == nil {
 		c.block = &b
 		return true
+	}
+	if lr, ok := c.blockData.(*io.LimitedReader); ok && lr.N > 0 {
+		// The container announced more block data than there was.
+		c.err = unexpectedEOF(c.err)
 	}
 	return false
 }
@@ -282,7 +299,9 @@ func (b *Block) readFrom(r io.Reader) error {
 	crc := crc32.NewIEEE()
 	er := errorReader{r: io.TeeReader(r, crc)}
 	var buf [4]byte
-	io.ReadFull(&er, buf[:2])
+	if _, err := io.ReadFull(&er, buf[:2]); err != nil {
+		return err
+	}
 	b.method = buf[0]
 	b.typ = buf[1]
 	b.contentID = er.itf8()
@@ -295,7 +314,7 @@ func (b *Block) readFrom(r io.Reader) error {
 	// This is not true for byte[] according to
 	// the EOF block.
 	if er.err != nil {
-		return er.err
+		return unexpectedEOF(er.err)
 	}
 	if b.compressedSize < 0 || b.rawSize < 0 {
 		return fmt.Errorf("cram: invalid block size: compressed %d raw %d", b.compressedSize, b.rawSize)
@@ -303,12 +322,12 @@ func (b *Block) readFrom(r io.Reader) error {
 	b.blockData = make([]byte, b.compressedSize)
 	_, err := io.ReadFull(&er, b.blockData)
 	if err != nil {
-		return err
+		return unexpectedEOF(err)
 	}
 	sum := crc.Sum32()
 	_, err = io.ReadFull(&er, buf[:])
 	if err != nil {
-		return err
+		return unexpectedEOF(err)
 	}
 	b.crc32 = binary.LittleEndian.Uint32(buf[:])
 	if b.crc32 != sum {
